@@ -62,7 +62,7 @@ DirBlocks(d, id) ==
 
 GarbSlot == [k |-> "garb", n |-> "", a |-> 0, c |-> -1, s |-> -1, zh |-> 0, zl |-> 0,
              cd |-> 0, ct |-> 0, wd |-> 0, wt |-> 0, cc |-> -1, wc |-> -1, raw |-> "", p |-> FALSE,
-             q |-> 0, cs |-> 0, u |-> <<>>]
+             q |-> 0, cs |-> 0, u |-> <<>>, ck |-> 0]
 EndSlot  == [GarbSlot EXCEPT !.k = "end"]
 
 \* stored slots of a block: trimmed sequence (positions beyond it are all-zero end slots)
